@@ -83,7 +83,7 @@ class Ctx:
             for i, (a, b) in enumerate(zip(impl, model)):
                 if a != b:
                     st['diffs'] += 1
-                    self.diffs.append((name, v, i, lines if not stateless else [lines[i]], a, b, i if not stateless else 0))
+                    self.diffs.append((name, v, i, lines, a, b, i, stateless))
         st['evaluations'] += len(lines) * len(variants)
         for i, l in enumerate(lines):
             nt = True if nontrivial is None else nontrivial(i)
@@ -114,13 +114,23 @@ class Ctx:
         known_keys = {k for (p, k, _) in known_findings() if p == self.pid}
         if not found:
             if self.diffs:
-                name, v, i, ops, a, b, idx = self.diffs[0]
-                ops = shrink_history(self.meta, v, ops, idx) if len(ops) > 1 else ops
+                name, v, i, ops, a, b, idx, stateless = self.diffs[0]
+                hist_note = ''
+                if stateless:
+                    # does the operation disagree on its own?  if not, the result depends on earlier calls in the same process
+                    alone = run_impl(self.meta, v, [ops[idx]])[0]
+                    if alone != a:
+                        hist_note = ' NOTE: this operation gives a different result when run alone (%s): its result depends on earlier, unrelated calls in the same process; the replay keeps the shortest prefix of earlier operations that reproduces it.' % alone[:80]
+                        ops = shrink_history(self.meta, v, ops, idx, limit=400)
+                    else:
+                        ops = [ops[idx]]
+                else:
+                    ops = shrink_history(self.meta, v, ops, idx)
                 res.violation('correspondence:' + name,
                               {'kind': 'ops', 'variant': v, 'ops': ops, 'index': len(ops) - 1, 'got': a, 'expected': b,
                                'note': 'the implementation and the Lean model TJ.Impl disagree on this operation (stream %s, %d disagreements in this run); '
                                        'the property theorems are about the model, so the property is no longer shown for this tree. '
-                                       'The directed search found no input on which the property itself fails.' % (name, len(self.diffs))},
+                                       'The directed search found no input on which the property itself fails.' % (name, len(self.diffs)) + hist_note},
                               False)
             if self.broken_proofs:
                 res.violation('proof', {'kind': 'proof', 'broken': self.broken_proofs, 'build_log_tail': self.proof.get('build_log_tail', ''),
@@ -154,10 +164,20 @@ class Ctx:
         return self.conclude()
 
 
-def shrink_history(meta, variant, ops, idx):
+def shrink_history(meta, variant, ops, idx, limit=120):
     """greedy: drop earlier ops while the implementation and the model still disagree on the last op"""
     ops = ops[:idx + 1]
-    if len(ops) > 120: return ops
+    if len(ops) > limit:
+        # bisect the start of the prefix first
+        lo = 0
+        for cut in (len(ops) - 2, len(ops) - 4, len(ops) - 8, len(ops) - 16, len(ops) - 64):
+            if cut <= 0: break
+            cand = ops[cut:]
+            try:
+                if run_impl(meta, variant, cand)[-1] != run_driver(cand)[-1]: lo = cut; break
+            except Exception: pass
+        ops = ops[lo:]
+        if len(ops) > limit: return ops
     def differs(cand):
         try:
             a = run_impl(meta, variant, cand); b = run_driver(cand)
@@ -200,7 +220,8 @@ RULES = {
 
 # =========================================================================== AEAD / SIV family
 
-def _enc_phase(ctx, mode, variants=('prod', 'san')):
+def _enc_phase(ctx, mode, variants=('prod', 'san', 'ndebug')):
+    ctx.build(['prod', 'san', 'ndebug'])
     cases = aead_cases(ctx.g, ctx.tier, mode)
     op = mode + '.enc'
     lines = [aead_line(op, c) for c in cases]
@@ -754,6 +775,7 @@ def _prng_history(g, obj, nops, sizes, limits, scripted=True):
         w, r = _delivery(g); dl.append((w, r))
     lines.append('p.script %d %s' % (obj, ','.join('%s:%d' % (hx(w), r) for w, r in dl)))
     custom = g.bytes(g.choice([0, 0, 5, 40]))
+    if g.random() < 0.6: lines.append('p.dirty %d %s' % (obj, hx(g.bytes(96, g.choice(['rand', 'ff', 'hi'])))))
     lines.append('p.inituser %d user 1 %s' % (obj, 'NULL' if (not custom and g.random() < 0.5) else hx(custom)))
     for _ in range(nops):
         r = g.random()
@@ -943,6 +965,7 @@ def check_C17(ctx):
         obj = n % 8; n += 1
         dl = [_delivery(g, k) for k in pat]
         lines.append('p.script %d %s' % (obj, ','.join('%s:%d' % (hx(w), r) for w, r in dl)))
+        lines.append('p.dirty %d %s' % (obj, hx(g.bytes(96, g.choice(['rand', 'ff'])))))
         custom = g.bytes(g.choice([0, 7]))
         lines.append('p.inituser %d user 1 %s' % (obj, 'NULL' if not custom and n % 2 else hx(custom)))
         lines.append('p.gen %d 64' % obj)
@@ -1135,7 +1158,7 @@ def check_C06(ctx):
             hl += ['m.init 1 %s' % ('NULL' if not k else hx(k)), 'm.update 1 %s' % hx(g.bytes(a)), 'm.update 1 %s' % hx(g.bytes(b)), 'm.final 1 %s' % ('NULL' if not k else hx(k))]
         hl += ['k.extract 2 %s %s' % (hx(g.bytes(5)), 'NULL'), 'k.expand 2 %s %d' % ('NULL', a), 'k.expand 2 03 %d' % (40 - a), 'k.expand 2 03 33']
     for n in list(range(0, 71)) + [1024, 1025, 1056, 1057]:
-        hl += ['p.script 3 %s' % ','.join('%s:32' % hx(g.bytes(32)) for _ in range(3)), 'p.inituser 3 user 1 %s' % ('NULL' if n % 2 else hx(g.bytes(n % 40))),
+        hl += ['p.dirty 3 %s' % hx(g.bytes(96, 'hi')), 'p.script 3 %s' % ','.join('%s:%d' % (hx(g.bytes(g.choice([32, 32, 7, 0]))), g.choice([32, 32, 7, 0])) for _ in range(3)), 'p.inituser 3 user 1 %s' % ('NULL' if n % 2 else hx(g.bytes(n % 40))),
                'p.gen 3 %d' % n, 'p.feed 3 %s' % ('NULL' if n == 0 else hx(g.bytes(n % 50))), 'p.gen 3 %d' % (70 - n if n <= 70 else 3), 'p.reseed 3', 'p.limit 3 %d' % n, 'p.gen 3 65']
     hl += ['h.free 0', 'm.free 1', 'k.free 2', 'p.free 3']
     for l in hl: ctx.dist[l.split()[0]] += 1
